@@ -16,10 +16,11 @@ LEVEL = "exploration"
 RULE = ("Hypothesis generates packet sequences (0..40 packets; data lengths from {1,2,5,6,7,255,256,4089..4097,65535,"
         "65536} + small + uniform 1..65536 within a size budget; arbitrary header words and data) each preceded by k in "
         "0..16 arbitrary prefix bytes (often looking like headers). Every sequence is framed from: a bytes object, "
-        "io.BytesIO, a real file (BufferedReader), a file object returning short non-empty reads, a scripted socket "
+        "io.BytesIO, a real file (BufferedReader), gzip / bz2 / lzma file objects (BufferedIOBase whose fileno() "
+        "belongs to another byte stream), a file object returning short non-empty reads, a scripted socket "
         "delivering a drawn fragmentation (cut points biased to fall inside headers, on packet boundaries and one byte "
         "either side), and (thorough) a real socketpair fed by a writer thread; read sizes from {default, 1, 2, 3, 5, 6, "
-        "7, 8, 4095, 4096, 4097, > total}; through ccsds_generator and packet_generator(ccsds_headers_only=True). "
+        "7, 8, 4095, 4096, 4097, > total}; progress display off and on; through ccsds_generator and packet_generator(ccsds_headers_only=True). "
         "Fixed big cases: 330 x 65536-byte packets (21.6 MB, beyond the 20 MB buffer-trim threshold) and (thorough) 3M "
         "7-byte packets, via bytes / BytesIO / scripted socket. Oracle: the first len(packets) items are byte-identical "
         "to the packets, in order; for bytes and file sources the next next() raises StopIteration; a socket is only "
@@ -30,7 +31,7 @@ ASSUMPTIONS = ["a socket.socket subclass overriding recv is an admissible socket
                "end-of-stream behaviour of sockets is C10's subject, not claimed here"]
 EXHAUSTIVE = {"quick": False, "thorough": False}
 
-KINDS = ("bytes", "bytesio", "file", "short", "socket")
+KINDS = ("bytes", "bytesio", "file", "short", "socket", "gzip", "bz2", "lzma")
 SIZES = (None, 1, 2, 3, 5, 6, 7, 8, 4095, 4096, 4097, 10 ** 8)
 _tmp = None
 
@@ -64,11 +65,14 @@ def build(case):
     return bytes(out), pkts, starts
 
 
-def frame(stream, n, k, kind, rs, route, sched, real_chunks=None):
+def frame(stream, n, k, kind, rs, route, sched, real_chunks=None, progress=False):
     """returns (items, verdict-or-None) where items are the first n yielded byte strings"""
+    import contextlib
     import warnings
     from space_packet_parser import packets
     kwargs = {"skip_header_bytes": k}
+    if progress:
+        kwargs["show_progress"] = True
     if rs is not None:
         kwargs["buffer_read_size_bytes"] = rs
     fh = path = sock = thread = None
@@ -82,6 +86,19 @@ def frame(stream, n, k, kind, rs, route, sched, real_chunks=None):
             with os.fdopen(fd, "wb") as f:
                 f.write(stream)
             fh = open(path, "rb")
+            src = fh
+        elif kind in ("gzip", "bz2", "lzma"):
+            # compressed file objects are binary file objects too (io.BufferedIOBase); their fileno() belongs to
+            # the compressed stream, their seek/read to the packet stream
+            import bz2
+            import gzip
+            import lzma
+            mod = {"gzip": gzip, "bz2": bz2, "lzma": lzma}[kind]
+            fd, path = tempfile.mkstemp(dir=tmpdir())
+            os.close(fd)
+            with mod.open(path, "wb") as f:
+                f.write(stream)
+            fh = mod.open(path, "rb")
             src = fh
         elif kind == "short":
             src = pk.ShortReader(stream, list(sched), max_empty=len(stream) // 7 + 8)
@@ -107,7 +124,7 @@ def frame(stream, n, k, kind, rs, route, sched, real_chunks=None):
             sock_a = a
         else:
             raise ValueError(kind)
-        with warnings.catch_warnings():
+        with warnings.catch_warnings(), contextlib.redirect_stdout(io.StringIO()):
             warnings.simplefilter("ignore")
             if route == "ccsds":
                 gen = packets.ccsds_generator(src, **kwargs)
@@ -200,20 +217,22 @@ def classify(ctx, case, stream, pkts, starts, kind, rs, sched):
     return tags
 
 
-def check_one(ctx, case, stream, pkts, starts, kind, rs, route, sched, real_chunks=None):
+def check_one(ctx, case, stream, pkts, starts, kind, rs, route, sched, real_chunks=None, progress=False):
     ctx.count()
     ctx.cls(f"kind {kind}")
+    if progress:
+        ctx.cls("show_progress=True")
     tags = classify(ctx, case, stream, pkts, starts, kind, rs, sched)
     if tags:
         ctx.cls("nontrivial")
         ctx.nontrivial((case["packets"] if len(stream) < 100000 else len(stream), case["k"], kind, rs, route,
                         list(sched)[:50]))
-    items, verdict = frame(stream, len(pkts), case["k"], kind, rs, route, sched, real_chunks)
+    items, verdict = frame(stream, len(pkts), case["k"], kind, rs, route, sched, real_chunks, progress)
     if verdict is None:
         verdict = compare(items, pkts, kind)
     if verdict:
-        only = {"kind": kind, "rs": rs, "route": route, "sched": list(sched)}
-        ctx.fail(verdict[0], f"{kind} source, read size {rs}, k={case['k']}, route {route}, {len(pkts)} packets, "
+        only = {"kind": kind, "rs": rs, "route": route, "sched": list(sched), "progress": progress}
+        ctx.fail(verdict[0], f"{kind} source, read size {rs}, k={case['k']}, route {route}, show_progress={progress}, {len(pkts)} packets, "
                              f"{len(stream)} bytes: {verdict[1]}", dict(case, only=only),
                  bucket=f"{verdict[0]}|{kind}")
         return False
@@ -243,7 +262,7 @@ def check_case(ctx, case):
     only = case.get("only")
     if only:
         return check_one(ctx, case, stream, pkts, starts, only["kind"], only["rs"], only["route"], only["sched"],
-                         only["sched"] if only["kind"] == "realsocket" else None)
+                         only["sched"] if only["kind"] == "realsocket" else None, only.get("progress", False))
     sched = biased_schedule(case, stream, starts, pkts)
     budget = 200000
     for ki, kind in enumerate(case.get("kinds", KINDS)):
@@ -252,7 +271,10 @@ def check_case(ctx, case):
                 rs = None
             route = "ccsds" if (ki + j) % 3 else "pgen"
             sc = sched if kind == "socket" else case["sched"]
-            if not check_one(ctx, case, stream, pkts, starts, kind, rs, route, sc):
+            if kind in ("gzip", "bz2", "lzma") and (j or len(stream) > 100000):
+                continue   # compression is slow: once per case, small streams only
+            if not check_one(ctx, case, stream, pkts, starts, kind, rs, route, sc,
+                             progress=bool(case.get("progress")) and (ki + j) % 2 == 0):
                 return
     if case.get("real"):
         chunks = [max(1, c) for c in sched]
@@ -285,7 +307,8 @@ def gen_case(draw, real=False):
     rs = draw(st.lists(st.sampled_from(SIZES), min_size=1, max_size=2, unique=True))
     sched = draw(st.lists(st.one_of(st.integers(1, 9), st.integers(1, 70000)), max_size=30))
     cutcodes = draw(st.lists(st.tuples(st.integers(0, 40), st.integers(0, 13)), max_size=12))
-    return {"k": k, "packets": pkts, "rs": rs, "sched": sched, "cutcodes": [list(c) for c in cutcodes], "real": real}
+    return {"k": k, "packets": pkts, "rs": rs, "sched": sched, "cutcodes": [list(c) for c in cutcodes], "real": real,
+            "progress": draw(st.integers(0, 3)) == 0}
 
 
 def part_generated(ctx, examples, real=False):
@@ -306,7 +329,9 @@ def part_big(ctx, which, kind):
         if kind == "bytes":
             variants = [("bytes", None, [])]
         elif kind == "bytesio":
-            variants = [("bytesio", None, []), ("bytesio", 100000, []), ("bytesio", 4096, [])]
+            # 65542 = exactly one packet per read: the buffer is exactly consumed when the trim happens
+            variants = [("bytesio", None, []), ("bytesio", 100000, []), ("bytesio", 4096, []), ("bytesio", 65542, []),
+                        ("bytesio", 2 * 65542, [])]
         else:
             variants = [("socket", None, [4096, 1, 70000, 6, 7])]
             if ctx.tier != "quick":
